@@ -564,8 +564,19 @@ fn one<T: Serialize + DeserializeOwned + Clone + Shape>(out: &mut dyn Write, ty:
         Ok(Err(_)) => json!({"res": "err", "tree": proj::dummy()}),
         Err(_) => json!({"res": "panic", "tree": proj::dummy()}),
     };
+    // the single-value routes: the value as one TOML value (also for types that are not a table at the root)
+    let mut vdec = Vec::new();
+    if let Ok(Ok(val)) = catch_unwind(AssertUnwindSafe(|| toml::Value::try_from(&v))) {
+        let vt = val.to_string();
+        vdec.push(dec_route("toml::de::ValueDeserializer", &orig, || T::deserialize(toml::de::ValueDeserializer::new(&vt)).map(ByShape).map_err(|e| e.to_string())));
+        vdec.push(dec_route("toml_edit::de::ValueDeserializer", &orig, || {
+            let d = vt.parse::<toml_edit::de::ValueDeserializer>().map_err(|e| e.to_string())?;
+            T::deserialize(d).map(ByShape).map_err(|e| e.to_string())
+        }));
+        vdec.push(dec_route("Value::try_into (any root)", &orig, || val.clone().try_into::<T>().map(ByShape).map_err(|e| e.to_string())));
+    }
     writeln!(out, "{}", json!({"ev": "serde", "id": format!("{ty}#{n}.{}", SEQ.fetch_add(1, std::sync::atomic::Ordering::Relaxed)), "ty": ty, "sdm": sdm, "enc": enc, "again": again,
-                               "dec": dec, "fixed": fixed, "try_from": tf, "ordered": cfg!(feature = "preserve_order")})).unwrap();
+                               "dec": dec, "vdec": vdec, "fixed": fixed, "try_from": tf, "ordered": cfg!(feature = "preserve_order")})).unwrap();
 }
 
 /// --seed S --n N
